@@ -143,6 +143,11 @@ def run_real(mode, inp, cl, buf, max_body, schedule=None, rng=None, kind='cl', e
             status, line, headers, body, nsr = call_app(app, env)
     except core.Hang:
         status = 0      # reported as outcome 'status0' (neither accepted nor a client error)
+    if status == 500:
+        errs = env['wsgi.errors'].getvalue()
+        if 'Too many open files' in errs or 'No space left on device' in errs or 'Cannot allocate memory' in errs:
+            # the sandbox ran out of descriptors / disk / memory while serving: nothing can be concluded about the code
+            raise core.MachineryError('environment failure while serving a request: %s' % errs.strip().splitlines()[-1:])
     phase = {200: 'done', 400: 'e400', 413: 'e413'}.get(status, 'status%d' % status)
     if phase == 'done' and 'out' not in res:
         phase = 'nobody'
